@@ -769,7 +769,9 @@ def run_bell(ctx, rng):
                          key="C07:bell:rephase-model")
             continue
         if s.startswith("E:"):
-            if not isinstance(got, str):
+            if not isinstance(got, str) and cs.get("malformed"):
+                ctx.note("SDOF_bellandMS returns on a malformed request (%s) where the model has %s: outside the property's quantifier" % (cs["malformed"], s))
+            elif not isinstance(got, str):
                 ctx.fail("correspondence", "SDOF_bellandMS returns where the model has %s" % s, cs, key="C07:bell:corr-raise")
             continue
         if isinstance(got, str):
@@ -879,7 +881,9 @@ def run_decay(ctx, rng):
                     ctx.fail("correspondence", "EFDD_mpe returns finite estimates where the model has nan/inf arithmetic", cs, key="C07:mpe:corr-nomodel")
             elif not isinstance(got, str):
                 ctx.fail("correspondence", "EFDD_mpe returns where the model has %s" % s, cs, key="C07:mpe:corr-raise")
-            elif s == "E:Index" and got != "IndexError":
+            elif s == "E:Index" and got not in ("IndexError", "ValueError"):
+                # too few correlation extrema for the requested fit (outside the property's quantifier): the present code runs off the end of a
+                # list (IndexError); an explicit ValueError says the same thing - only another outcome is a difference
                 ctx.fail("correspondence", "EFDD_mpe raised %s where the record holds too few extrema (model: IndexError)" % got, cs, key="C07:mpe:corr-raise")
             continue
         if isinstance(got, str):
